@@ -601,4 +601,218 @@ func runC06(c *Ctx) {
 		}
 		c.Check(okC, r4, "rollback: stores created by this transaction are skipped", f.Decl.Pos(), "append only on the !created edge", "the reverse delta is applied to a store this transaction created (it is removed instead)", nil)
 	}
+	r5 := c.Rule("R5", "positional pairing: rollback pairs rollbackStoresInfo[i] with t.btreesBackend[i] (the created flag), so getRollbackStoresInfo returns exactly one element per backend, in backend order: a make([]T, len(t.btreesBackend)) filled by stores[i] = ... on every iteration of a range over t.btreesBackend, never a filtered append", 3)
+	positionalPairingRule(c, r5)
+	r6 := c.Rule("R6", "the count a later transaction starts from is the count on disk: in fs.StoreRepository.Update and its undo closure every successful storeinfo write is followed by a cache refresh with the very record that was written (shared with C20.R4)", 6)
+	updateCacheCoherenceRule(c, r6)
+	r7 := c.Rule("R7", "the count delta a dead transaction's log replay must subtract survives the log encoding: StoreInfo.CountDelta is excluded from JSON (json:\"-\"), so the store infos the replay hands to StoreRepository.Update must get their CountDelta from a field of the payload that is encoded - not from decoding the payload straight into []sop.StoreInfo", 3)
+	replayDeltaRule(c, r7)
+
+}
+
+// positionalPairingRule (C06.R5 = C01.R9).
+func positionalPairingRule(c *Ctx, r5 string) {
+	w := c.W
+	fr := w.Fn(kTxrb)
+	gr := w.G(fr)
+	info := fr.Pkg.TypesInfo
+	backends := w.Field("common", "Transaction", "btreesBackend")
+	// 1. the pairing site: a range over the result of getRollbackStoresInfo whose body indexes t.btreesBackend with the range key
+	var producer *Func
+	paired := false
+	ast.Inspect(fr.Body, func(x ast.Node) bool {
+		rs, ok := x.(*ast.RangeStmt)
+		if !ok || rs.Key == nil {
+			return true
+		}
+		kid, ok := rs.Key.(*ast.Ident)
+		if !ok {
+			return true
+		}
+		kobj := info.Defs[kid]
+		xid, ok := ast.Unparen(rs.X).(*ast.Ident)
+		if !ok {
+			return true
+		}
+		var prod *Func
+		for _, nc := range gr.callNodes("common.Transaction.getRollbackStoresInfo") {
+			if v := gr.lhsVarOfCall(nc.n, nc.cs, 0); v != nil && types.Object(v) == info.Uses[xid] {
+				prod = w.Fn("common.Transaction.getRollbackStoresInfo")
+			}
+		}
+		if prod == nil {
+			return true
+		}
+		ast.Inspect(rs.Body, func(y ast.Node) bool {
+			if ix, ok := y.(*ast.IndexExpr); ok && fieldOfSelector(info, ix.X) == backends && kobj != nil && mentionsObj(info, ix.Index, kobj) {
+				paired = true
+				producer = prod
+			}
+			return true
+		})
+		return true
+	})
+	if !paired {
+		c.Held(r5, "rollback: rollback store infos are not paired with the backends by position", fr.Decl.Pos(), "no positional pairing found: nothing to require of the producer")
+		c.Held(r5, "getRollbackStoresInfo: one element per backend", fr.Decl.Pos(), "not required")
+		c.Held(r5, "getRollbackStoresInfo: filled by position", fr.Decl.Pos(), "not required")
+		return
+	}
+	c.Held(r5, "rollback: rollback store infos are paired with the backends by position", fr.Decl.Pos(), "rollbackStoresInfo[i] <-> t.btreesBackend[i]")
+	c.Analysed(producer)
+	pinfo := producer.Pkg.TypesInfo
+	// 2. the producer: result := make([]T, len(t.btreesBackend)); for i := range t.btreesBackend { ...; result[i] = v }; return result
+	var res types.Object
+	okMake := false
+	ast.Inspect(producer.Body, func(x ast.Node) bool {
+		as, ok := x.(*ast.AssignStmt)
+		if !ok || len(as.Lhs) != 1 || len(as.Rhs) != 1 {
+			return true
+		}
+		call, ok := ast.Unparen(as.Rhs[0]).(*ast.CallExpr)
+		if !ok {
+			return true
+		}
+		if id, ok := ast.Unparen(call.Fun).(*ast.Ident); ok && id.Name == "make" && len(call.Args) >= 2 {
+			if lid, ok := ast.Unparen(as.Lhs[0]).(*ast.Ident); ok {
+				if o := pinfo.Defs[lid]; o != nil {
+					res = o
+					if lc, ok := ast.Unparen(call.Args[1]).(*ast.CallExpr); ok && len(call.Args) == 2 && len(lc.Args) == 1 {
+						if fid, ok := ast.Unparen(lc.Fun).(*ast.Ident); ok && fid.Name == "len" && fieldOfSelector(pinfo, lc.Args[0]) == backends {
+							okMake = true
+						}
+					}
+				}
+			}
+		}
+		return true
+	})
+	c.Check(okMake, r5, "getRollbackStoresInfo: one element per backend", producer.Decl.Pos(), "make([]StoreInfo, len(t.btreesBackend))",
+		"the result is not allocated with one element per backend: rollback pairs element i with t.btreesBackend[i].created, so a shorter (filtered) slice makes another store's created flag decide whether a store's count delta is reversed - an existing store keeps a failed transaction's delta", nil)
+	gp := w.G(producer)
+	okFill := false
+	var pos token.Pos = producer.Decl.Pos()
+	if res != nil {
+		usesAppend := false
+		for _, n := range gp.Nodes {
+			if gp.assignsObj(n, res) && calls("builtin.append")(n) {
+				usesAppend = true
+				pos = n.Ast.Pos()
+			}
+		}
+		// the indexed store inside a range over the backends, on every iteration
+		for _, n := range gp.Nodes {
+			as, ok := n.Ast.(*ast.AssignStmt)
+			if !ok || len(as.Lhs) != 1 {
+				continue
+			}
+			ix, ok := ast.Unparen(as.Lhs[0]).(*ast.IndexExpr)
+			if !ok {
+				continue
+			}
+			if id, ok := ast.Unparen(ix.X).(*ast.Ident); !ok || pinfo.Uses[id] != res {
+				continue
+			}
+			head := enclosingRangeHead(gp, n)
+			if head == nil || fieldOfSelector(pinfo, head.RangeHead.X) != backends {
+				continue
+			}
+			var body []int
+			for _, e := range head.Succs {
+				if e.Cond == 1 {
+					body = append(body, e.To)
+				}
+			}
+			if len(gp.MustFollowFrom(body, func(x *GNode) bool { return x == n }, func(x *GNode) bool { return x == head || x.Exit })) == 0 {
+				okFill = true
+			}
+		}
+		if usesAppend {
+			okFill = false
+		}
+	}
+	c.Check(okFill, r5, "getRollbackStoresInfo: filled by position", pos, "stores[i] = ... on every iteration over t.btreesBackend, no append",
+		"the result is built by (conditional) append or skips positions: element i no longer belongs to backend i", nil)
+}
+
+// replayDeltaRule (C06.R7 = C09.R6).
+func replayDeltaRule(c *Ctx, r7 string) {
+	w := c.W
+	cd := w.Field("sop", "StoreInfo", "CountDelta")
+	st, _ := w.Object("sop", "StoreInfo").Type().Underlying().(*types.Struct)
+	tag := ""
+	for i := 0; st != nil && i < st.NumFields(); i++ {
+		if st.Field(i) == cd {
+			tag = jsonTagName(st.Tag(i))
+		}
+	}
+	// the repositories consume CountDelta
+	consumed := false
+	for _, k := range []string{"fs.StoreRepository.Update"} {
+		f := w.Fn(k)
+		if len(w.usesOf(f, cd, true)) > 0 {
+			consumed = true
+		}
+		for _, l := range w.allLits(f) {
+			if len(w.usesOf(l, cd, true)) > 0 {
+				consumed = true
+			}
+		}
+	}
+	c.Check(consumed, r7, "StoreRepository.Update applies StoreInfo.CountDelta", token.NoPos, "the repository reads CountDelta", "fs.StoreRepository.Update no longer reads CountDelta (rule has nothing to decide)", nil)
+	ft := w.Fn(kTLRollback)
+	gt := w.G(ft)
+	c.Analysed(ft)
+	info := ft.Pkg.TypesInfo
+	defs := localDefs(ft)
+	n := 0
+	for _, nc := range gt.callNodes(kSRUpdate) {
+		if len(nc.cs.Call.Args) != 2 {
+			continue
+		}
+		n++
+		construct := "log replay: the store infos handed to StoreRepository.Update carry the logged count delta"
+		// the producing call of the argument
+		var prod *ast.CallExpr
+		e := nc.cs.Call.Args[1]
+		for depth := 0; depth < 4 && prod == nil; depth++ {
+			switch x := ast.Unparen(e).(type) {
+			case *ast.CallExpr:
+				prod = x
+			case *ast.Ident:
+				ds := defs[info.Uses[x]]
+				if len(ds) != 1 {
+					depth = 4
+					break
+				}
+				e = ds[0]
+			default:
+				depth = 4
+			}
+		}
+		if prod == nil {
+			c.Violated(r7, construct, nc.cs.Call.Pos(), "cannot find the call that decodes the payload", nil)
+			continue
+		}
+		pcs := w.resolveCall(ft, prod)
+		if pcs != nil && pcs.Key == "common.toStruct" {
+			// decoded straight into the type argument: does it contain sop.StoreInfo with an unencoded CountDelta?
+			rt := info.TypeOf(prod)
+			direct := rt != nil && strings.Contains(rt.String(), "sop.StoreInfo") && !strings.Contains(rt.String(), "common.")
+			c.Check(!(direct && (tag == "-")), r7, construct, nc.cs.Call.Pos(), "CountDelta is part of the encoding",
+				"the payload is decoded straight into "+rt.String()+", and StoreInfo.CountDelta is tagged json:\"-\": the delta that phase1Commit put there is not in the log, Update adds 0, and after a crash between commitStores and the commit point the store's Count keeps the dead transaction's delta although its items are rolled back", nil)
+			continue
+		}
+		// a decoding helper: it must assign CountDelta from the decoded payload
+		var helper *Func
+		if pcs != nil {
+			helper = w.CalleeFunc(pcs)
+		}
+		okH := helper != nil && len(w.writesOf(helper, cd, true)) > 0 && w.Reaches(helper, keyIn("common.toStruct"))
+		c.Check(okH, r7, construct, nc.cs.Call.Pos(), "the decoding helper restores CountDelta from an encoded field", "the helper that decodes the commitStoreInfo payload does not assign StoreInfo.CountDelta", nil)
+		if helper != nil {
+			c.Analysed(helper)
+		}
+	}
+	c.Check(n == 1, r7, "log replay: one StoreRepository.Update call", ft.Decl.Pos(), "found", fmt.Sprintf("found %d", n), nil)
 }
